@@ -14,6 +14,7 @@ R == Rec[i]
 C16ok == /\ PrecedenceOK(cli, tc, doc, fmt, ToLayer(R.obs.eff))        \* the real effective configuration
          /\ R.obs.associative /\ R.obs.identity /\ R.obs.lists_ok        \* observed on the real merge functions
          /\ (R.obs.e2e = "skip" \/ R.obs.e2e = "ok")                     \* the binary behaves according to the effective value
+         /\ NeighbourIndependent(R.obs.e2e_nb)
 Verdicts == (i > 0) => (C16ok \/ PrintT(<<"VERDICT", "C16", R.id>>))
 Accepted == TLCGet("stats").diameter - 1 = Len(Rec)
 =============================================================================
